@@ -88,7 +88,8 @@ MANIFEST = dict(
                 "correspondence: every real pass (the drain's and the generator's) is one `round` line the model executes on "
                 "its own, and the state after the pass and the number of callbacks made are compared; the real loop is also "
                 "held to the theorems pass by pass (measure never up, down if anything changed, an idle pass leaves its end "
-                "quiet) and its rest states to Quiet."),
+                "quiet) and its rest states to Quiet; no finished handler is listed when a pass reaches select "
+                "(C02_no_finished_handler_at_select, Props/C02_Select.lean; checked on the real runonce at its call of select)."),
     technique="Lean 4 proof (invariants over all schedules, progress, termination measure) + differential replay + real-loop drain oracle on the real classes",
 )
 
